@@ -3,8 +3,10 @@ package sim
 import (
 	"bytes"
 	"encoding/hex"
+	"encoding/json"
 	"fmt"
 	"sort"
+	"strings"
 
 	"mhubsim/hub"
 
@@ -132,6 +134,16 @@ func (w *World) doExportImport(in Intent) {
 		w.St.Probe("export-with-pending-state")
 	}
 	same := true
+	// the modules' parameters (in the params store, sub-spaces mhub2/ and oracle/) are bridge state too
+	{
+		pa, pb := moduleParams(orig), moduleParams(nn)
+		w.St.Check("C15:store-preserved")
+		if d := diffKV(pa, pb); d != "" {
+			same = false
+			w.Note("C15", "store-preserved", "params:module-parameters", "params store, sub-spaces mhub2/ and oracle/: "+d)
+		}
+	}
+	listed := listedChains(orig)
 	for _, store := range []string{"mhub2", "oracle"} {
 		a := dumpByPrefix(orig, store)
 		b := dumpByPrefix(nn, store)
@@ -157,19 +169,44 @@ func (w *World) doExportImport(in Intent) {
 			if store == "mhub2" && (p == mhub2types.ValidatorExternalAddressKey || p == mhub2types.OrchestratorValidatorAddressKey || p == mhub2types.ExternalOrchestratorAddressKey) {
 				// the delegate-key registry: which KIND of entry is lost matters (a current registration of a
 				// listed chain is not the same defect as a superseded index entry or a chain that is not listed)
-				for _, cls := range classifyRegistryDiff(orig, p, a[p], b[p]) {
+				for _, cls := range classifyRegistryDiff(orig, p, a[p], b[p], listed) {
 					same = false
-					w.Note("C15", "store-preserved", fmt.Sprintf("%s:0x%02x:%s:%s", store, p, names[p], cls.class), fmt.Sprintf("%s store, prefix 0x%02x (%s), %s entries: %s", store, p, names[p], cls.class, cls.detail))
+					site := fmt.Sprintf("%s:0x%02x:%s:%s", store, p, names[p], cls.class)
+					if cls.class == "unlisted-chain" {
+						site = fmt.Sprintf("unlisted-chain:%s:0x%02x:%s", store, p, names[p])
+					}
+					w.Note("C15", "store-preserved", site, fmt.Sprintf("%s store, prefix 0x%02x (%s), %s entries: %s", store, p, names[p], cls.class, cls.detail))
 				}
 				continue
 			}
-			if d := diffKV(a[p], b[p]); d != "" {
-				same = false
-				name := names[p]
-				if name == "" {
-					name = "unknown"
+			// keys that belong to a chain governance has removed from Params.Chains are a class of their own:
+			// ExportGenesis walks the listed chains only
+			al, bl, au, bu := kvSet{}, kvSet{}, kvSet{}, kvSet{}
+			for k, v := range a[p] {
+				if store == "mhub2" && unlistedChainKey(k, listed) {
+					au[k] = v
+				} else {
+					al[k] = v
 				}
+			}
+			for k, v := range b[p] {
+				if store == "mhub2" && unlistedChainKey(k, listed) {
+					bu[k] = v
+				} else {
+					bl[k] = v
+				}
+			}
+			name := names[p]
+			if name == "" {
+				name = "unknown"
+			}
+			if d := diffKV(al, bl); d != "" {
+				same = false
 				w.Note("C15", "store-preserved", fmt.Sprintf("%s:0x%02x:%s", store, p, name), fmt.Sprintf("%s store, prefix 0x%02x (%s): %s", store, p, name, d))
+			}
+			if d := diffKV(au, bu); d != "" {
+				same = false
+				w.Note("C15", "store-preserved", fmt.Sprintf("unlisted-chain:%s:0x%02x:%s", store, p, name), fmt.Sprintf("%s store, prefix 0x%02x (%s), keys of a chain that is not in Params.Chains: %s", store, p, name, d))
 			}
 		}
 	}
@@ -261,7 +298,7 @@ type registryDiff struct{ class, detail string }
 // classifyRegistryDiff sorts the differences of one delegate-key index into classes:
 // foreign-chain (the chain is not one of the bridge's chains), superseded (an index entry that no current
 // registration points to), current (part of a validator's current registration), changed, appears.
-func classifyRegistryDiff(orig *hub.Node, p byte, a, b kvSet) []registryDiff {
+func classifyRegistryDiff(orig *hub.Node, p byte, a, b kvSet, listed map[string]bool) []registryDiff {
 	st := ReadStateOf(orig)
 	type reg struct{ valExt, orchVal, extOrch map[string]string }
 	regs := map[string]reg{}
@@ -305,6 +342,10 @@ func classifyRegistryDiff(orig *hub.Node, p byte, a, b kvSet) []registryDiff {
 				add("foreign-chain", fmt.Sprintf("key %x is lost", k))
 				continue
 			}
+			if listed != nil && !listed[ch] {
+				add("unlisted-chain", fmt.Sprintf("key %x (%s) is lost", k, ch))
+				continue
+			}
 			r := regs[ch]
 			extIsCurrent := func(e string) bool {
 				for _, x := range r.valExt {
@@ -335,10 +376,57 @@ func classifyRegistryDiff(orig *hub.Node, p byte, a, b kvSet) []registryDiff {
 		}
 	}
 	var out []registryDiff
-	for _, c := range []string{"current", "changed", "appears", "superseded", "foreign-chain"} {
+	for _, c := range []string{"current", "changed", "appears", "superseded", "foreign-chain", "unlisted-chain"} {
 		if d := found[c]; len(d) > 0 {
 			out = append(out, registryDiff{c, fmt.Sprintf("%s (%d such entries)", d[0], len(d))})
 		}
 	}
 	return out
+}
+
+// moduleParams returns the parameters of the bridge and oracle modules as stored.
+func moduleParams(n *hub.Node) kvSet {
+	out := kvSet{}
+	ks, vs := ReadStateOf(n).StoreDump("params")
+	for i := range ks {
+		k := string(ks[i])
+		if strings.HasPrefix(k, "mhub2/") || strings.HasPrefix(k, "oracle/") {
+			v := string(vs[i])
+			if v == "null" {
+				v = "[]" // an emptied list parameter reads back the same either way
+			}
+			out[k] = v
+		}
+	}
+	return out
+}
+
+// listedChains reads Params.Chains of a node (nil: parameter unreadable, treat every chain as listed).
+func listedChains(n *hub.Node) map[string]bool {
+	raw, ok := moduleParams(n)["mhub2/Chains"]
+	if !ok {
+		return nil
+	}
+	var l []string
+	if json.Unmarshal([]byte(raw), &l) != nil {
+		return nil
+	}
+	out := map[string]bool{}
+	for _, c := range l {
+		out[c] = true
+	}
+	return out
+}
+
+// unlistedChainKey: the key is a per-chain key (prefix byte, chain name, ...) of a bridge chain that is not listed now.
+func unlistedChainKey(k string, listed map[string]bool) bool {
+	if listed == nil || len(k) < 2 {
+		return false
+	}
+	for _, ch := range Chains {
+		if strings.HasPrefix(k[1:], ch) {
+			return !listed[ch]
+		}
+	}
+	return false
 }
